@@ -38,6 +38,7 @@ type Task struct {
 	Confirm  string            // known-finding id to confirm (explore only its region)
 	Redirect map[string]string // "pkg.Func" -> "pkg.Func": calls to the key run the value instead (stub, part of the claim)
 	GFMul    bool              // summarise GenericGF.Multiply as the polynomial product (validated by C04)
+	Monitor  bool              // C18: report stores into package-level state; other findings of the harness are dropped
 	NoReach  bool              // harness has no Reach witness (e.g. totality harness where every path may end early)
 }
 
@@ -130,6 +131,7 @@ func cmdRun(args []string) int {
 	confirm := fs.String("confirm", "", "known finding id to confirm")
 	fresh := fs.Bool("fresh", false, "")
 	gfmul := fs.Bool("gfmul", false, "")
+	monitor := fs.Bool("monitor", false, "report stores into package-level state")
 	backends := fs.String("backends", "", "comma-separated obligation back ends")
 	redirect := fs.String("redirect", "", "from=to,...")
 	fs.Parse(args)
@@ -160,7 +162,7 @@ func cmdRun(args []string) int {
 		pprof.StartCPUProfile(f)
 		defer pprof.StopCPUProfile()
 	}
-	t := Task{Pkg: *pkg, Func: *fn, Args: ints, NoMerge: *nomerge, Confirm: *confirm, Fresh: *fresh, GFMul: *gfmul}
+	t := Task{Pkg: *pkg, Func: *fn, Args: ints, NoMerge: *nomerge, Confirm: *confirm, Fresh: *fresh, GFMul: *gfmul, Monitor: *monitor}
 	if *backends != "" {
 		t.Backends = strings.Split(*backends, ",")
 	}
@@ -256,7 +258,16 @@ func runTasks(P *Program, tasks []Task, tier string, seed int64, trace bool, pro
 						allowed[p] = true
 					}
 					m.InitAllowed = func(p *ssa.Package) bool { return allowed[p] }
-					if err := safely(func() { m.RunInit(P.InitPkgs) }); err != "" {
+					if err := safely(func() {
+						m.RunInit(P.InitPkgs)
+						var repo []*ssa.Package
+						for _, p := range P.InitPkgs {
+							if strings.HasPrefix(p.Pkg.Path(), modPath) {
+								repo = append(repo, p)
+							}
+						}
+						m.MarkShared(repo)
+					}); err != "" {
 						results[i] = TaskResult{Task: tasks[i], Err: "init: " + err}
 						m.Close()
 						m = nil
@@ -306,6 +317,10 @@ func runOne(P *Program, m *sx.Machine, t Task, tier string, known []KnownFinding
 		res.Err = err.Error()
 		return res
 	}
+	if len(t.Args) != len(fn.Params) {
+		res.Err = fmt.Sprintf("harness %s takes %d arguments, task gives %d", t.Func, len(fn.Params), len(t.Args))
+		return res
+	}
 	m.ResetForTask()
 	m.Known = map[string]string{}
 	for _, k := range known {
@@ -318,6 +333,7 @@ func runOne(P *Program, m *sx.Machine, t Task, tier string, known []KnownFinding
 		}
 	}
 	m.EnableMerge = !t.NoMerge
+	m.MonitorShared = t.Monitor
 	m.MaxPaths = 200_000
 	if t.MaxPaths > 0 {
 		m.MaxPaths = t.MaxPaths
@@ -352,6 +368,15 @@ func runOne(P *Program, m *sx.Machine, t Task, tier string, known []KnownFinding
 	m.Trace = trace
 	if e := safely(func() { res.Res = m.Explore(fn, sx.MkArgs(fn, t.Args)) }); e != "" {
 		res.Err = e
+	}
+	if t.Monitor {
+		var keep []sx.Finding
+		for _, f := range res.Res.Findings {
+			if f.Kind == "shared-write" {
+				keep = append(keep, f)
+			}
+		}
+		res.Res.Findings = keep
 	}
 	res.Dur = time.Since(t0)
 	return res
